@@ -99,6 +99,7 @@ type c15NodeIn struct {
 	Runs      int   `json:"runs"`
 	Steps     int   `json:"steps"`
 	HeadLimit int64 `json:"headLimit"`
+	Offsets   int   `json:"offsets"` // crash offsets tried per snapshot (0 = all five classes)
 }
 
 type c15Input struct {
@@ -1081,6 +1082,9 @@ func (sh *c15Shared) config(walFile string) *cfg.Config {
 	cc := *sh.conf.Consensus
 	c.Consensus = &cc
 	c.Consensus.SetWalFile(walFile)
+	// as in DefaultConsensusConfig: the next height is entered through the logged (and replayed)
+	// round-0 timeout, not inside the handling of the previous height's last precommit
+	c.Consensus.SkipTimeoutCommit = false
 	return &c
 }
 
@@ -1828,8 +1832,8 @@ func (sh *c15Shared) runNode(k int, in c15NodeIn) {
 			offs = append(offs, s.synced, s.synced+rng.Int63n(s.hsize-s.synced+1), s.synced+1, s.hsize-1)
 		}
 		seen := map[int64]bool{}
-		for _, o := range offs {
-			if o < s.synced || o > s.hsize || seen[o] {
+		for oi, o := range offs {
+			if o < s.synced || o > s.hsize || seen[o] || (in.Offsets > 0 && oi >= in.Offsets) {
 				continue
 			}
 			seen[o] = true
